@@ -69,7 +69,8 @@ def state_range(F, R, name, lo, hi, rule):
             continue
         x = leaf[1] if leaf[0] == 'some' else leaf
         H = base.extended([c for c in conds])
-        facts = assumed_facts(name, [x] + [c for c in conds if isinstance(c, tuple)])
+        from .e_window import extremum_facts, cross_term_facts, buffer_sum_facts
+        facts = assumed_facts(name, [x] + [c for c in conds if isinstance(c, tuple)], v) + extremum_facts(F, v) + cross_term_facts(F, v) + buffer_sum_facts(F, v)
         fs = AllCases(FSign(list(conds) + facts, int_lb_factory(H)).cases())
         r = fs.rng(x)
         n += 1
